@@ -38,26 +38,76 @@ def _site(e):
     return '%s:%s' % (os.path.basename(f.filename), f.name)
 
 
+def _obj_json(x):
+    """full canonical JSON of one returned object (line-protocol form of lean/Pywbem/Model/CimJson.lean)"""
+    import pywbem
+    T = cimproto.Tables()
+    if isinstance(x, pywbem.CIMInstance):
+        j = cimproto.inst_to_json(x, T)
+    elif isinstance(x, (pywbem.CIMInstanceName, pywbem.CIMClassName)):
+        j = cimproto.path_to_json(x, T)
+    elif isinstance(x, pywbem.CIMClass):
+        j = cimproto.cls_to_json(x, T)
+    elif isinstance(x, pywbem.CIMQualifierDeclaration):
+        j = cimproto.qdecl_to_json(x, T)
+    elif isinstance(x, tuple) and len(x) == 2:
+        j = [_obj_json(x[0]), _obj_json(x[1])]
+    elif isinstance(x, str):
+        j = cimproto.cps(x)
+    else:
+        j = {'unexpected': type(x).__name__}
+    return j
+
+
+def canon_obj(j):
+    """canonical form for comparing objects: array sizes as max(n, 0) (the model type is Nat), NaN bit patterns
+    unified, qualifier-declaration scopes sorted (a NocaseDict: order carries no meaning)"""
+    if isinstance(j, dict):
+        out = {}
+        for k, v in j.items():
+            if k == 'arraySize' and isinstance(v, int):
+                v = max(v, 0)
+            elif k == 'scopes' and isinstance(v, list):
+                v = sorted([canon_obj(x) for x in v], key=json.dumps)
+            elif k == 'bits' and isinstance(v, str):
+                try:
+                    x = cimproto.from_bits(v)
+                    if x != x:
+                        v = 'nan'
+                except Exception:  # noqa
+                    pass
+            else:
+                v = canon_obj(v)
+            out[k] = v
+        return out
+    if isinstance(j, list):
+        return [canon_obj(x) for x in j]
+    return j
+
+
 def summarize(op, r):
     """canonical summary of a returned value (same form as Driver/C02.lean: resToJson)"""
     d = L.describe
     if op.flags.get('iter'):
-        return {'k': 'items', 'items': d(r)}
+        return {'k': 'items', 'items': d(r), 'objs': canon_obj([_obj_json(x) for x in r])}
     post = op.post
     if post == 'void':
         return {'k': 'void'}
     if post in ('oneInst', 'onePath', 'oneClass', 'oneQdecl'):
-        return {'k': 'one', 'item': d(r)}
+        return {'k': 'one', 'item': d(r), 'objs': canon_obj([_obj_json(r)])}
     if post in ('pullInst', 'pullPath', 'pullQuery'):
         items = r.paths if post == 'pullPath' else r.instances
+        qrc = getattr(r, 'query_result_class', None)
         return {'k': 'pull', 'items': d(items), 'eos': r.eos,
                 'ctx': None if r.context is None else cimproto.ocps(r.context[0]),
-                'qrc': getattr(r, 'query_result_class', None) is not None}
+                'qrc': qrc is not None, 'objs': canon_obj([_obj_json(x) for x in items]),
+                'qrcObj': None if qrc is None else canon_obj(_obj_json(qrc))}
     if post == 'invoke':
         return {'k': 'invoke', 'rvNone': r[0] is None, 'outs': sorted(set(k.lower() for k in r[1].keys()))}
     if post == 'objs' and not op.flags.get('instLevel'):
-        return {'k': 'list', 'items': ['pair' if isinstance(x, tuple) else d(x) for x in r]}
-    return {'k': 'list', 'items': d(r)}
+        return {'k': 'list', 'items': ['pair' if isinstance(x, tuple) else d(x) for x in r],
+                'objs': canon_obj([_obj_json(x) for x in r])}
+    return {'k': 'list', 'items': d(r), 'objs': canon_obj([_obj_json(x) for x in r])}
 
 
 def model_summary(op, out):
@@ -65,14 +115,23 @@ def model_summary(op, out):
     if 'ok' not in out:
         return out
     s = dict(out['ok'])
+    if 'objs' in s:
+        s['objs'] = canon_obj(s['objs'])
+    if s.get('qrcObj') is not None:
+        s['qrcObj'] = canon_obj(s['qrcObj'])
     if s.get('k') == 'invoke':
         s['outs'] = sorted(set(common.from_cps(n).lower() for n in s['outs']))
     if op.flags.get('iter'):
-        return {'ok': {'k': 'items', 'items': s.get('items', [])}}
-    if s.get('k') == 'pull' and op.post != 'pullQuery':
-        s['qrc'] = False
-    if s.get('k') == 'pull' and op.post == 'pullQuery' and not hasattr_qrc(op):
-        s['qrc'] = False
+        objs = s.get('objs', [])
+        if op.name in ('IterEnumerateInstances:trad', 'IterEnumerateInstancePaths:trad'):
+            # the fallback branch of these two generators completes a missing host with conn.host (Iter logic,
+            # property C15); applied here to the model's result of the traditional operation
+            host = cimproto.cps('c02.invalid:5988')
+            for o in objs:
+                p = o.get('path') if 'path' in o else o
+                if isinstance(p, dict) and p.get('host') is None:
+                    p['host'] = host
+        return {'ok': {'k': 'items', 'items': s.get('items', []), 'objs': objs}}
     return {'ok': s}
 
 
